@@ -28,7 +28,7 @@ const keyTorn = "C35-delete-compacts-shared-slice"
 
 func TestMain(m *testing.M) {
 	vlib.Rule("C35: a MasterClient built without dialing (NewMasterClient; updates through the verif export of addLocation/deleteLocation, i.e. exactly what the KeepConnected receive loop calls) gets a rapid-generated sequence of add/delete notifications over 4 volume ids x 5 locations (2 data centers + one location without data center; client data center empty/dc1/dc2) including duplicate adds, deletes of absent locations and deletes of the last location. After EVERY step all four lookup entry points (GetLocations, GetVidLocations, LookupVolumeServerUrl, LookupFileId) are compared for every volume id with a reference ordered set, and every lookup result handed out earlier must still read as it did when it was returned (a result that changes under the caller is a torn read). Plus a bounded-exhaustive enumeration of all sequences up to length 5 (quick) / 7 (thorough) over 1 volume x 3 locations. Non-trivial = the sequence contains an effective delete (location was present) AND at some step a volume had >= 2 locations; distinct = distinct written-out sequence. TestRace (thorough, -race): 4 reader goroutines doing lookups and iterating the returned slices while one writer applies a generated sequence; each observed result must equal the reference state at some point between the start and the end of that lookup. TestPropConcurrentWriters (both tiers, plain build; also under -race): a generated scenario of 2-8 writer goroutines with their own add/delete lists on the same 1-2 volume ids over up to 12 servers, released together by a spin barrier after a sequential prefix, repeated 60 (quick) / 200 (thorough) rounds on fresh clients; the final set must be duplicate-free and, per server, equal to the outcome of the last update of SOME goroutine touching that server (exactly determined when each server belongs to one goroutine, which is 3 of 4 scenarios); untouched servers keep the prefix state. Non-trivial there = >= 2 goroutines on one volume with >= 2 distinct servers.")
-	vlib.Assume("C35: a location is identified by its Url; PublicUrl and DataCenter are functions of the Url (a server does not change data center between notifications). 'None' may be reported as not-found or as an empty list. The reconnect path (tryAllMasters replacing the whole vidMap) needs a master connection and is not exercised.")
+	vlib.Assume("C35: a location is identified by its Url (what the unchanged addLocation/deleteLocation compare); PublicUrl and DataCenter are attributes that notifications for the same server may carry differently (3 of 4 generated sequences draw them per notification: table values / no data center as in the initial sync and the disconnect remove / arbitrary). A returned entry must carry a (PublicUrl, DataCenter) pair that some add for that server sent since it was last removed, unmixed; which of them is not prescribed. The same-data-center-first order of url lookups is judged against the data center GetLocations reports at that moment. 'None' may be reported as not-found or as an empty list. The reconnect path (tryAllMasters replacing the whole vidMap) needs a master connection and is not exercised.")
 	vlib.Main(m)
 }
 
@@ -70,12 +70,29 @@ type op struct {
 	add bool
 	vid uint32
 	loc int
+	// attrs, when set, are the PublicUrl/DataCenter this notification carries
+	// instead of the table's (the Url, which identifies the server, never varies)
+	attrs *attrVariant
+}
+
+type attrVariant struct{ publicUrl, dataCenter string }
+
+// msg is the Location the notification carries.
+func (o op) msg() wdclient.Location {
+	l := allLocs[o.loc]
+	if o.attrs != nil {
+		l.PublicUrl, l.DataCenter = o.attrs.publicUrl, o.attrs.dataCenter
+	}
+	return l
 }
 
 func (o op) String() string {
 	c := "-"
 	if o.add {
 		c = "+"
+	}
+	if o.attrs != nil && (o.attrs.publicUrl != allLocs[o.loc].PublicUrl || o.attrs.dataCenter != allLocs[o.loc].DataCenter) {
+		return fmt.Sprintf("%s%d@s%d{pub=%q,dc=%q}", c, o.vid, o.loc, o.attrs.publicUrl, o.attrs.dataCenter)
 	}
 	return fmt.Sprintf("%s%d@s%d", c, o.vid, o.loc)
 }
@@ -151,11 +168,27 @@ func sameSet(a, b []int) bool {
 // decodeLocations maps returned Location structs to table indices; an entry
 // that is not exactly one of the table's structs is torn.
 func decodeLocations(got []wdclient.Location) (idx []int, problem string) {
+	return decodeLocationsAttr(got, nil)
+}
+
+// decodeLocationsAttr: allowed[i] lists the (PublicUrl, DataCenter) pairs that
+// notifications have attached to server i since it was last removed; nil means
+// the table's attributes. An entry must carry one of those pairs unmixed.
+func decodeLocationsAttr(got []wdclient.Location, allowed map[int][]wdclient.Location) (idx []int, problem string) {
 	seen := map[int]bool{}
 	for _, l := range got {
 		i := locIndex(l.Url)
-		if i < 0 || l != allLocs[i] {
-			return nil, fmt.Sprintf("torn/unknown entry %+v", l)
+		ok := i >= 0 && l == allLocs[i]
+		if i >= 0 && allowed != nil {
+			ok = false
+			for _, a := range allowed[i] {
+				if l == a {
+					ok = true
+				}
+			}
+		}
+		if !ok {
+			return nil, fmt.Sprintf("torn/unknown entry %+v (attributes never sent for this server: %v)", l, allowed[i])
 		}
 		if seen[i] {
 			return nil, fmt.Sprintf("duplicate entry %s", l.Url)
@@ -169,6 +202,12 @@ func decodeLocations(got []wdclient.Location) (idx []int, problem string) {
 // decodeUrls maps url strings (optionally with the http://…/fid decoration) to
 // table indices and checks duplicates and the same-data-center-first order.
 func decodeUrls(got []string, clientDC, prefix, suffix string) (idx []int, problem string) {
+	return decodeUrlsDC(got, clientDC, prefix, suffix, nil)
+}
+
+// decodeUrlsDC: dcOf[i] is the data center the cache currently reports for
+// server i (from GetLocations at the same moment); nil means the table's.
+func decodeUrlsDC(got []string, clientDC, prefix, suffix string, dcOf map[int]string) (idx []int, problem string) {
 	seen := map[int]bool{}
 	otherSeen := false
 	for _, u := range got {
@@ -183,7 +222,11 @@ func decodeUrls(got []string, clientDC, prefix, suffix string) (idx []int, probl
 			return nil, fmt.Sprintf("duplicate url %q", u)
 		}
 		seen[i] = true
-		same := clientDC != "" && allLocs[i].DataCenter == clientDC
+		serverDC := allLocs[i].DataCenter
+		if dcOf != nil {
+			serverDC = dcOf[i]
+		}
+		same := clientDC != "" && serverDC == clientDC
 		if same && otherSeen {
 			return nil, fmt.Sprintf("same-data-center url %q listed after a url of another data center: %v", u, got)
 		}
@@ -200,6 +243,11 @@ const fidSuffix = ",01637037d6"
 // lookupAll performs the four lookups for one volume and compares them with
 // the expected set; it returns "" or a description of the discrepancy.
 func lookupAll(mc *wdclient.MasterClient, clientDC string, vid uint32, want []int) string {
+	return lookupAllAttr(mc, clientDC, vid, want, nil)
+}
+
+func lookupAllAttr(mc *wdclient.MasterClient, clientDC string, vid uint32, want []int, allowed map[int][]wdclient.Location) string {
+	var dcOf map[int]string
 	svid := strconv.Itoa(int(vid))
 	// GetLocations
 	got, found := mc.GetLocations(vid)
@@ -208,9 +256,15 @@ func lookupAll(mc *wdclient.MasterClient, clientDC string, vid uint32, want []in
 			return fmt.Sprintf("GetLocations(%d) = %v, want none", vid, got)
 		}
 	} else {
-		idx, p := decodeLocations(got)
+		idx, p := decodeLocationsAttr(got, allowed)
 		if p != "" {
 			return fmt.Sprintf("GetLocations(%d): %s (%v)", vid, p, got)
+		}
+		if allowed != nil {
+			dcOf = map[int]string{}
+			for _, l := range got {
+				dcOf[locIndex(l.Url)] = l.DataCenter
+			}
 		}
 		if !found || !sameSet(idx, want) {
 			return fmt.Sprintf("GetLocations(%d) = %v found=%v, want locations %v", vid, got, found, want)
@@ -223,7 +277,7 @@ func lookupAll(mc *wdclient.MasterClient, clientDC string, vid uint32, want []in
 			return fmt.Sprintf("GetVidLocations(%s) = %v, want none", svid, got2)
 		}
 	} else {
-		idx, p := decodeLocations(got2)
+		idx, p := decodeLocationsAttr(got2, allowed)
 		if p != "" {
 			return fmt.Sprintf("GetVidLocations(%s): %s (%v)", svid, p, got2)
 		}
@@ -238,7 +292,7 @@ func lookupAll(mc *wdclient.MasterClient, clientDC string, vid uint32, want []in
 			return fmt.Sprintf("LookupVolumeServerUrl(%s) = %v, want none", svid, urls)
 		}
 	} else {
-		idx, p := decodeUrls(urls, clientDC, "", "")
+		idx, p := decodeUrlsDC(urls, clientDC, "", "", dcOf)
 		if p != "" {
 			return fmt.Sprintf("LookupVolumeServerUrl(%s): %s", svid, p)
 		}
@@ -254,7 +308,7 @@ func lookupAll(mc *wdclient.MasterClient, clientDC string, vid uint32, want []in
 			return fmt.Sprintf("LookupFileId(%s) = %v, want none", fid, full)
 		}
 	} else {
-		idx, p := decodeUrls(full, clientDC, "http://", "/"+fid)
+		idx, p := decodeUrlsDC(full, clientDC, "http://", "/"+fid, dcOf)
 		if p != "" {
 			return fmt.Sprintf("LookupFileId(%s): %s", fid, p)
 		}
@@ -286,6 +340,8 @@ func (h held) changed() bool {
 }
 
 type seqStats struct {
+	attrMismatchDupAdd, attrMismatchDelete, disconnectShapeDelete int
+
 	dupAdd, delAbsent, delPresent, delLast, delNonTail, addAfterDelete int
 	maxLocs                                                            int
 	mixedDC                                                            bool
@@ -299,9 +355,18 @@ func runSequence(clientDC string, ops []op, volumes []uint32, everyStep bool, ho
 	var st seqStats
 	var helds []held
 	deleted := map[uint32]bool{}
+	// (PublicUrl, DataCenter) pairs sent for a server since it was last removed
+	sent := map[vidLoc][]wdclient.Location{}
+	allowedFor := func(v uint32) map[int][]wdclient.Location {
+		a := map[int][]wdclient.Location{}
+		for _, x := range r[v] {
+			a[x] = sent[vidLoc{v, x}]
+		}
+		return a
+	}
 	check := func(step int) string {
 		for _, v := range volumes {
-			if d := lookupAll(mc, clientDC, v, r[v]); d != "" {
+			if d := lookupAllAttr(mc, clientDC, v, r[v], allowedFor(v)); d != "" {
 				return fmt.Sprintf("after step %d: %s", step, d)
 			}
 			if holdResults {
@@ -326,15 +391,35 @@ func runSequence(clientDC string, ops []op, volumes []uint32, everyStep bool, ho
 				pos = j
 			}
 		}
+		k := vidLoc{o.vid, o.loc}
 		if o.add {
-			mc.VerifAddLocation(o.vid, locs[o.loc])
+			mc.VerifAddLocation(o.vid, o.msg())
 			if pos >= 0 {
 				st.dupAdd++
+				if o.msg() != sent[k][0] {
+					st.attrMismatchDupAdd++
+				}
 			} else if deleted[o.vid] {
 				st.addAfterDelete++
 			}
+			sent[k] = append(sent[k], o.msg())
 		} else {
-			mc.VerifDeleteLocation(o.vid, locs[o.loc])
+			mc.VerifDeleteLocation(o.vid, o.msg())
+			if pos >= 0 {
+				mismatch := true
+				for _, a := range sent[k] {
+					if a == o.msg() {
+						mismatch = false
+					}
+				}
+				if mismatch {
+					st.attrMismatchDelete++
+				}
+				if o.msg().DataCenter == "" && sent[k][0].DataCenter != "" {
+					st.disconnectShapeDelete++
+				}
+			}
+			delete(sent, k)
 			switch {
 			case pos < 0:
 				st.delAbsent++
@@ -402,6 +487,15 @@ func classes(st seqStats, base string) []string {
 	if st.mixedDC {
 		c = append(c, "mixed-dc-lookup")
 	}
+	if st.attrMismatchDelete > 0 {
+		c = append(c, "remove-with-attributes-never-added")
+	}
+	if st.disconnectShapeDelete > 0 {
+		c = append(c, "remove-without-datacenter-of-server-added-with-one")
+	}
+	if st.attrMismatchDupAdd > 0 {
+		c = append(c, "re-add-with-different-attributes")
+	}
 	c = append(c, fmt.Sprintf("max-locations-%d", st.maxLocs))
 	return c
 }
@@ -423,10 +517,35 @@ func genOps(t *rapid.T, nVids, nLocs, maxLen int) []op {
 	return ops
 }
 
+// genAttrs draws the PublicUrl / DataCenter each notification carries. The
+// master really sends differing pairs for one server: heartbeat adds carry the
+// data center (master_grpc_server.go SendHeartbeat), the initial sync of a new
+// client omits it (topology ToVolumeLocations), and the remove broadcast when a
+// volume server disconnects carries Url and PublicUrl only.
+func genAttrs(t *rapid.T, ops []op) {
+	for i := range ops {
+		o := &ops[i]
+		tab := allLocs[o.loc]
+		switch k := rapid.IntRange(0, 9).Draw(t, "shape"); {
+		case k < 4: // as in the table (heartbeat shape: everything filled in)
+		case k < 7: // no data center: initial sync (add) / disconnect (remove)
+			o.attrs = &attrVariant{tab.PublicUrl, ""}
+		default: // anything, independently of the Url
+			o.attrs = &attrVariant{
+				rapid.SampledFrom([]string{tab.PublicUrl, "", "other." + tab.PublicUrl}).Draw(t, "publicUrl"),
+				rapid.SampledFrom([]string{"dc1", "dc2", ""}).Draw(t, "dataCenter"),
+			}
+		}
+	}
+}
+
 func TestPropSequence(t *testing.T) {
 	vlib.Check(t, 6000, 120000, func(t *rapid.T) {
 		dc := rapid.SampledFrom([]string{"", "dc1", "dc2"}).Draw(t, "clientDC")
 		ops := genOps(t, len(vids), len(locs), 40)
+		if rapid.IntRange(0, 3).Draw(t, "attributeVariants") != 0 {
+			genAttrs(t, ops)
+		}
 		hold := true
 		if vlib.Known(keyTorn) {
 			// listed finding: deleteLocation/addLocation rewrite the array that earlier
@@ -448,7 +567,7 @@ func TestPropSequenceExhaustive(t *testing.T) {
 	sub := []int{0, 2, 1}
 	alphabet := make([]op, 0, 6)
 	for _, l := range sub {
-		alphabet = append(alphabet, op{true, 1, l}, op{false, 1, l})
+		alphabet = append(alphabet, op{add: true, vid: 1, loc: l}, op{add: false, vid: 1, loc: l})
 	}
 	hold := true
 	if vlib.Known(keyTorn) {
